@@ -174,7 +174,7 @@ def run(tier, seed):
     try:
         translate.translate(PID)
     except Exception as e:  # TranslateError or parse failure
-        ck.proof_broken("translator gen_telnet", repr(e))
+        ck.proof_broken("translator gen/c15.py", repr(e))
     # 2 prove
     ck.prove("ScrapliProps.C15", lemma_files=["ScrapliProps/C15Lemmas.lean", "ScrapliModel/Telnet.lean"])
     if tier == "thorough":
